@@ -122,7 +122,16 @@ func genHistory(r *rand.Rand, g *wsclient.Gen, seed int64) *history {
 		seq++
 		tag := fmt.Sprintf("t%d", seq)
 		cost := forceCost || r.Intn(4) == 0
-		q, cells := g.GenQuery(tag, wsclient.QueryOpts{Slow: !forceCost, Boom: !forceCost && r.Intn(4) == 0, Cost: cost})
+		opts := wsclient.QueryOpts{Slow: !forceCost, Boom: !forceCost && r.Intn(4) == 0, Cost: cost}
+		var q string
+		var cells []string
+		var vars map[string]interface{}
+		if !forceCost && r.Intn(3) == 0 {
+			opts.Boom = false // a re-used document must not bring a failing field into a later subscription
+			q, vars, cells = g.GenVarQuery(tag, opts)
+		} else {
+			q, cells = g.GenQuery(tag, opts)
+		}
 		var free []string
 		for _, id := range ids {
 			if live[id] == nil {
@@ -131,7 +140,7 @@ func genHistory(r *rand.Rand, g *wsclient.Gen, seed int64) *history {
 		}
 		id := free[r.Intn(len(free))]
 		live[id] = &liveSub{tag: tag, cells: cells, cost: cost}
-		return wsclient.Step{Kind: "sub", ID: id, Tag: tag, Query: q, Wait: wait, PauseUS: pause(r)}
+		return wsclient.Step{Kind: "sub", ID: id, Tag: tag, Query: q, Vars: vars, Wait: wait, PauseUS: pause(r)}
 	}
 	n := 14 + r.Intn(26)
 	h.Steps = append(h.Steps, sub(r.Intn(2) == 0))
@@ -306,7 +315,7 @@ func converged(s *wsclient.Session, a *wsclient.Analysis) verdict {
 			return verdict{what: "live subscription has received no update", inst: inst}
 		}
 		fr := wsclient.Fold(ups)
-		exp, err := s.World.Expected(inst.Query)
+		exp, err := s.World.Expected(inst.Query, inst.Vars)
 		if err != nil {
 			return verdict{what: "expected value: Execute failed: " + err.Error(), inst: inst}
 		}
@@ -338,8 +347,8 @@ func TestCheck(t *testing.T) {
 	log.SetOutput(io.Discard)
 	run := vlib.Start(t, "C02", "exploration")
 	defer run.Finish()
-	run.Rule("histories over one websocket connection (scripted JSONSocket) against a schemabuilder schema over a mutable store: 14-40 steps of subscribe (ids from a pool of 5, reused after unsubscribe; 1-6 fields over scalars, nullable object, keyed lists (nested), unkeyed object/scalar/nested lists, unions with and without key, union lists, a nullable keyed object, slow and Expensive fields - also on list elements and on the nullable object, with interned source objects so that the reactive cache can hit), " +
-		"subscribe with a live id, unsubscribe (live / unknown id), mutate (own id namespace), echo, direct writes, write bursts, gate steps (a resolver of an in-flight run is held after AddDependency or after reading while 1-3 further writes, optionally an unsubscribe or a mutation, land), leave/change/return/change sequences for one item (out of the keyed list or the nullable object and back), 0/1/3/5/6/7/9 pass-through middlewares registered with conn.Use (some pausing before/after next), transient resolver failures on re-runs, unsubscribe-all sent a fraction of the write-then-read delay after a write that invalidates an idle subscription (reactive.WriteThenReadDelay is 0 in half of the histories, 0.5-3 ms in the rest), plus 0-2 writes injected at named hook points; case 0 is a pinned history (unsubscribe during an in-flight run, id re-subscribed while the run's own asynchronous close is pending); " +
+	run.Rule("histories over one websocket connection (scripted JSONSocket) against a schemabuilder schema over a mutable store: 14-40 steps of subscribe (ids from a pool of 5, reused after unsubscribe; 1-6 fields over scalars, nullable object, keyed lists (nested), unkeyed object/scalar/nested lists, unions with and without key, union lists, a nullable keyed object, a keyed list of BY-VALUE structs holding a slice (non-comparable sources) with an Expensive field, slow and Expensive fields - also on list elements and on the nullable object, with interned source objects so that the reactive cache can hit), " +
+		"one third of the subscriptions use a document with variables ($tag, and $k selecting which cell a field reads), whose text is re-used verbatim by later subscriptions with different variable values, subscribe with a live id, unsubscribe (live / unknown id), mutate (own id namespace), echo, direct writes, write bursts, gate steps (a resolver of an in-flight run is held after AddDependency or after reading while 1-3 further writes, optionally an unsubscribe or a mutation, land), leave/change/return/change sequences for one item (out of the keyed list or the nullable object and back), 0/1/3/5/6/7/9 pass-through middlewares registered with conn.Use (some pausing before/after next), transient resolver failures on re-runs, unsubscribe-all sent a fraction of the write-then-read delay after a write that invalidates an idle subscription (reactive.WriteThenReadDelay is 0 in half of the histories, 0.5-3 ms in the rest), plus 0-2 writes injected at named hook points; case 0 is a pinned history (unsubscribe during an in-flight run, id re-subscribed while the run's own asynchronous close is pending); " +
 		"cells notify by Invalidate-and-replace, Strobe, or per-read resources (seeded per cell); seeded pacing and yield-hook perturbation. " +
 		"Non-trivial = >= 2 writes logged while a subscription execution was in flight AND >= 1 non-initial update with a structural delta (reorder / removal / object, list or null replacement). Distinct = step-kind sequence + set of non-initial delta shapes.")
 	run.Assume("store cells follow the discipline AddDependency(resource) then read; writers change the value then Invalidate/Strobe; a resource released by its last dependant is replaced (thunder releases = permanently invalidates it)")
